@@ -27,17 +27,18 @@ ASSUMPTIONS = [
 BUDGET_S = {"quick": 200, "thorough": 2400}
 
 N = {
-    "quick": {"random": 350, "template": 450, "concrete": 150, "small": 250},
-    "thorough": {"random": 12000, "template": 14000, "concrete": 4000, "small": 6000},
+    "quick": {"random": 300, "template": 1200, "concrete": 150, "small": 250},
+    "thorough": {"random": 6000, "template": 12000, "concrete": 2000, "small": 4000},
 }
 
 
 def shards(tier, seed):
     out = []
     for mode in ("random", "template", "concrete", "small"):
-        for i in range(4 if tier == "quick" else 8):
+        for i in range(16):
             out.append({"mode": mode, "i": i, "n": N[tier][mode], "hseed": seed * 1000 + len(out)})
-    out.append({"mode": "enum", "i": 0, "n": 0, "hseed": 0, "wmax": 2 if tier == "quick" else 3})
+    for o1 in _ENUM_BIN:
+        out.append({"mode": "enum", "i": 0, "n": 0, "hseed": 0, "wmax": 2 if tier == "quick" else 3, "op1": o1})
     return out
 
 
@@ -89,9 +90,15 @@ def replay(case):
 def _body(ctx, mode):
     def body(v):
         tree, spell = v
+        tname = None
+        if mode == "template":
+            tname, tree = tree
         case = {"tree": tree, "spell": spell}
         exprcheck.reset_caches()
         fails, info = check_case(tree, spell)
+        if tname is not None:
+            rc = [c for c in info["classes"] if c in ("rewritten", "folded-symbolic", "folded-concrete", "untouched", "leaf")]
+            info["classes"].append(f"tpl:{tname}:{'changed' if rc and rc[0] not in ('untouched', 'leaf') else 'asis'}")
         if info.get("z3") == "unknown":
             ctx.count("oracle_inconclusive")
         if "build_exception" in info:
@@ -106,12 +113,12 @@ def _body(ctx, mode):
 _ENUM_BIN = ("bvadd", "bvsub", "bvmul", "bvudiv", "bvurem", "bvsdiv", "bvsrem", "bvand", "bvor", "bvxor", "bvshl", "bvlshr", "bvashr", "rotl", "rotr")
 
 
-def _enum_trees(wmax):
+def _enum_trees(wmax, ops1):
     """Every shape op2(op1(x, c1), c2), op2(c2, op1(x,c1)), cmp(op1(x,c1), c2) with all constants, width<=wmax."""
     for n in range(1, wmax + 1):
         x = ("var", f"v0_{n}", n)
         consts = [("const", v, n) for v in range(1 << n)]
-        for o1 in _ENUM_BIN:
+        for o1 in ops1:
             for c1 in consts:
                 for inner in ((o1, x, c1), (o1, c1, x)):
                     for c2 in consts:
@@ -128,23 +135,30 @@ def run_shard(shard, ctx):
     mode = shard["mode"]
     if mode == "enum":
         n = 0
-        for tree in _enum_trees(shard["wmax"]):
+        for tree in _enum_trees(shard["wmax"], (shard["op1"],)):
             if ctx.out_of_time():
                 break
             n += 1
             _body(ctx, "enum")((tree, 0))
         ctx.extra["enumerated_two_operator_shapes"] = n
+        ctx.extra["exhaustive"] = True
         ctx.extra["exhaustive_subdomain"] = f"all op2(op1(x,c1),c2) and mirrored/compare/unary variants, all constants, width 1..{shard['wmax']}"
         return
     tier = ctx.tier
     if mode == "random":
         strat = gen.any_tree(gen.cfg_for(tier), max_depth=4)
     elif mode == "template":
-        strat = gen.template(gen.cfg_for(tier))
+        strat = gen.template_named(gen.cfg_for(tier))
     elif mode == "concrete":
         strat = st.one_of(gen.any_tree(gen.cfg_for(tier, concrete=True), max_depth=3), gen.template(gen.cfg_for(tier, concrete=True)))
     else:  # small: widths 1..4, all assignments enumerated
         strat = st.one_of(gen.any_tree(gen.cfg_for(tier, small=True), max_depth=4), gen.template(gen.cfg_for(tier, small=True)))
+    if mode == "template":
+        each = gen.templates_each(gen.cfg_for(tier))
+        per = max(1, shard["n"] // len(each))
+        for k, (_nm, strat1) in enumerate(each):
+            hyp.run(st.tuples(strat1, st.integers(0, 2**32 - 1)), per, shard["hseed"] * 100 + k, _body(ctx, mode), ctx)
+        return
     hyp.run(st.tuples(strat, st.integers(0, 2**32 - 1)), shard["n"], shard["hseed"], _body(ctx, mode), ctx)
 
 
